@@ -96,14 +96,39 @@ class UserCallable:
 
 
 # ------------------------------------------------------------------ terms
+def _expand_parts(parts) -> list[str]:
+    """index parts as a set of base parts: a `sorted:` token stands for the same indices in ascending order"""
+    out = []
+    for p in parts:
+        if p.startswith("sorted:"):
+            out.extend(p[len("sorted:"):].split("+"))
+        else:
+            out.append(p)
+    return out
+
+
+def _part_names(p: str) -> list[str]:
+    return [q.split(":", 1)[1] for q in _expand_parts([p])]
+
+
+def sorted_idx(ix: "Idx") -> "Idx":
+    """np.unique / np.sort of an index array: one `where`/segment part is ascending already; several parts
+    concatenated are a different *sequence* once sorted (same set)"""
+    if len(ix.parts) <= 1:
+        return ix
+    return Idx(("sorted:" + "+".join(_expand_parts(ix.parts)),))
+
+
 def simp(t):
-    """Normalise version terms (the algebra of insertion/deletion/re-insertion)."""
+    """Normalise version terms (the algebra of insertion/deletion/re-insertion).  Deletion is by index *set*;
+    gathering rows (`sub`) and putting them back (`reins`) are by index *sequence*: they cancel only when the
+    rows come back in the order they were taken."""
     if not isinstance(t, tuple) or not t:
         return t
     head = t[0]
     if head == "del":
         x, idx = simp(t[1]), t[2]
-        parts = set(idx)
+        parts = set(_expand_parts(idx))
         # peel appended segments that are entirely deleted
         changed = True
         while changed and parts:
@@ -116,15 +141,15 @@ def simp(t):
             return x
         return ("del", x, tuple(sorted(parts)))
     if head == "reins":
-        x, sub, idx = simp(t[1]), simp(t[2]), t[3]
-        if isinstance(x, tuple) and x and x[0] == "del" and tuple(sorted(x[2])) == tuple(sorted(idx)):
-            if sub == ("sub", x[1], tuple(sorted(idx))):
+        x, sub, idx = simp(t[1]), simp(t[2]), tuple(t[3])
+        if isinstance(x, tuple) and x and x[0] == "del" and set(x[2]) == set(_expand_parts(idx)):
+            if sub == ("sub", x[1], idx):
                 return x[1]
-        return ("reins", x, sub, tuple(sorted(idx)))
+        return ("reins", x, sub, idx)
     if head == "ext":
         return ("ext", simp(t[1]), t[2])
     if head == "sub":
-        return ("sub", simp(t[1]), tuple(sorted(t[2])))
+        return ("sub", simp(t[1]), tuple(t[2]))
     return t
 
 
@@ -152,12 +177,14 @@ def length(t) -> dict:
     if h == "del":
         d = dict(length(t[1]))
         for p in t[2]:
-            d["|" + p.split(":", 1)[1] + "|"] = d.get("|" + p.split(":", 1)[1] + "|", 0) - 1
+            for nm in _part_names(p):
+                d["|" + nm + "|"] = d.get("|" + nm + "|", 0) - 1
         return _clean(d)
     if h == "reins":
         d = dict(length(t[1]))
         for p in t[3]:
-            d["|" + p.split(":", 1)[1] + "|"] = d.get("|" + p.split(":", 1)[1] + "|", 0) + 1
+            for nm in _part_names(p):
+                d["|" + nm + "|"] = d.get("|" + nm + "|", 0) + 1
         return _clean(d)
     if h == "cat":
         d = dict(length(t[1]))
@@ -167,7 +194,8 @@ def length(t) -> dict:
     if h == "sub":
         d = {}
         for p in t[2]:
-            d["|" + p.split(":", 1)[1] + "|"] = d.get("|" + p.split(":", 1)[1] + "|", 0) + 1
+            for nm in _part_names(p):
+                d["|" + nm + "|"] = d.get("|" + nm + "|", 0) + 1
         return d
     return {"?" + str(t)[:30]: 1}
 
@@ -179,8 +207,9 @@ def _clean(d):
 def idx_len(ix: Idx) -> tuple:
     d = {}
     for p in ix.parts:
-        k = "|" + p.split(":", 1)[1] + "|"
-        d[k] = d.get(k, 0) + 1
+        for nm in _part_names(p):
+            k = "|" + nm + "|"
+            d[k] = d.get(k, 0) + 1
     return tuple(sorted(d.items()))
 
 
@@ -1476,6 +1505,8 @@ class Machine:
             return (Idx(("where:" + self.fresh("w"),)),)
         if full == "numpy.array" and args and isinstance(args[0], Idx):
             return args[0]
+        if full in ("numpy.unique", "numpy.sort") and args and isinstance(args[0], Idx) and not kwargs:
+            return sorted_idx(args[0])  # indices of distinct particles are distinct: unique only sorts
         if full in ("numpy.array", "numpy.asarray") and args and isinstance(args[0], list) and not args[0]:
             return []
         hk = self.hooks.get("external")
